@@ -96,9 +96,11 @@ def deg_source(rng, W, H):
 def deg_scene(rng, cid):
     W, H = rng.choice([(0, 0), (0, 3), (3, 0), (1, 1), (2, 5), (7, 4)])
     px = [gen.premul_pixel(rng) for _ in range(W * H)]
-    ops, layers = [], 0
+    ops, layers, plain = [], 0, True
     for _ in range(rng.randrange(1, 7)):
         c = rng.random()
+        if c < 0.3:
+            plain = False
         if c < 0.12:
             ops.append("xf " + scene.xf_tokens(rng.choice([(0.0,) * 6, (0.5, 0.25, 0.5, 0.25, 0.0, 0.0), (1e-20, 0.0, 0.0, 1e-20, 0.0, 0.0),
                                                           (1.0, 0.0, 0.0, 1.0, 1.0, -1.0), (0.5, 0.0, 0.0, 0.5, 0.0, 0.0), scene.IDENT])))
@@ -120,16 +122,18 @@ def deg_scene(rng, cid):
             ops.append("stroke %s %s SRC %s %s" % (deg_path(rng, W, H), deg_style(rng), deg_source(rng, W, H), deg_opts(rng)))
         elif c < 0.84:
             v = [rng.choice([0.0, -0.0, 1.0, -3.0, 0.5, 1990.0, -1990.0, float(W), 2.0]) for _ in range(4)]
+            if plain and rng.random() < 0.2:     # integer rectangles whose far corner lies beyond the i32 range (integer fast route: identity, no clip)
+                v = [rng.choice([2e9, -2e9, 2147483520.0, 0.0]), rng.choice([0.0, 2e9, -2e9]), rng.choice([2e9, -2e9, 1.0]), rng.choice([1.0, 2e9, -2e9])]
             ops.append("fillrect %d %d %d %d %s %s" % (FB(v[0]), FB(v[1]), FB(v[2]), FB(v[3]), deg_source(rng, W, H), deg_opts(rng)))
         elif c < 0.88:
             ops.append("clear " + gen.hexpx(gen.premul_pixel(rng)))
         elif c < 0.93:
-            ops.append("mask %s %d %d 1 1 %d" % (deg_source(rng, W, H), rng.choice([0, -1, W, -5000, 5000, 2 ** 29]), rng.choice([0, -1, H, 7, -2 ** 29]), rng.choice([0, 255, 7])))
+            ops.append("mask %s %d %d 1 1 %d" % (deg_source(rng, W, H), rng.choice([0, -1, W, -5000, 5000, 2 ** 29, 2 ** 31 - 1, -2 ** 31]), rng.choice([0, -1, H, 7, -2 ** 29, 2 ** 31 - 1]), rng.choice([0, 255, 7])))
         elif c < 0.97:
             ops.append("drawimage %d %d 1 1 %s %s" % (FB(rng.choice([0.0, -1.0, 0.5, 3990.0, float(W)])), FB(rng.choice([0.0, -0.25, 2.0, -3990.0])),
                                                       gen.hexpx(gen.premul_pixel(rng)), deg_opts(rng)))
         else:
-            far = rng.choice([2 ** 29, -2 ** 29, 10 ** 6, 0, -3])
+            far = rng.choice([2 ** 29, -2 ** 29, 10 ** 6, 0, -3, 2 ** 31 - 1, -2 ** 31 + 1, 2 ** 30])
             ops.append("surf %s 2 1 %s %s %d %d %d %d %d %d" % (rng.choice(["copy 0", "blend 3", "alpha %d" % FB(rng.choice(SPECIAL_F))]),
                                                                 gen.hexpx(gen.premul_pixel(rng)), gen.hexpx(gen.premul_pixel(rng)),
                                                                 rng.choice([0, far]), rng.choice([0, -far]), rng.choice([2, far, -far]), rng.choice([1, far]),
